@@ -69,3 +69,48 @@ func ZZ_C40_IntegerLiteralText_LLEN() {
 	bad := nd == 0 || (len(text) > 0 && (text[0] == '_' || text[len(text)-1] == '_'))
 	zzAssert("error-iff-misplaced-underscore-or-no-digits", (len(p.errors) > 0) == bad)
 }
+
+// Fixed-point literal text: <integer part> '.' <fractional part>, both over digits and '_' (what the
+// lexer produces); i free bytes before the point, LEN-i after it.
+//
+//verif:harness property=C40 mode=bv bigw=64 unwind=60 stubs=metering lens=0..3 thorough_lens=0..4 steps=30000000
+func ZZ_C40_FixedPointLiteralText_LLEN() {
+	free := zzNondetBytes(LEN)
+	for _, c := range free {
+		zzAssume(zzInAlphabet(c, 10))
+	}
+	i := zzChoice(LEN + 1)
+	text := make([]byte, 0, LEN+1)
+	text = append(text, free[:i]...)
+	text = append(text, '.')
+	text = append(text, free[i:]...)
+	p := &parser{}
+	out := zzCatch(func() any {
+		return parseFixedPointLiteral(p, text, ast.EmptyRange)
+	})
+	zzAssert("no-crash", !out.Panicked)
+	if out.Panicked {
+		return
+	}
+	e := out.Value.(*ast.FixedPointExpression)
+	iv, fv := int64(0), int64(0)
+	nf := 0
+	for k, c := range free {
+		if c == '_' {
+			continue
+		}
+		if k < i {
+			iv = iv*10 + zzDigitVal(c)
+		} else {
+			fv = fv*10 + zzDigitVal(c)
+			nf++
+		}
+	}
+	if nf == 0 {
+		nf = 1
+	}
+	zzAssert("integer-part-value", e.UnsignedInteger.Cmp(big.NewInt(iv)) == 0)
+	zzAssert("fractional-part-value", e.Fractional.Cmp(big.NewInt(fv)) == 0)
+	zzAssert("scale-is-number-of-fractional-digits", e.Scale == uint(nf))
+	zzAssert("not-negative", !e.Negative)
+}
